@@ -1,6 +1,7 @@
 import DdsModel.Eval
 import DdsProofs.Cone
 import DdsProofs.Closure
+import DdsProofs.Fuel
 /-!
 # C02 — nothing is recomputed unless something it depends on changed
 
@@ -12,8 +13,9 @@ Stage 2 (over the whole model, loads included unless said otherwise):
 * `outside_cone_invisible` — if two versions of the code agree on every function the evaluated function can reach
   (the cone of DESIGN §4.1, closed under call / reference / keep) and on the non-accepted code, an evaluation has the
   *same outcome* in both: same value, same executed bodies (so nothing is recomputed because of an edit outside the
-  cone), same signatures, same store. (The model's recursion bound is the number of definitions: the statement is
-  for versions with equally many definitions; additions are decided by the check's `unrelated_fun` edits.)
+  cone), same signatures, same store — for versions with equally many definitions; `outside_cone_invisible'` removes that
+  restriction: the second version may have any number of further definitions (`Fuel.lean`: the recursion bound of the
+  model is immaterial — a result that is not the model's own fuel error does not change with more fuel).
 * `reeval_runs_nothing` — after a successful evaluation of a kept function on a real store, every evaluation whose
   analysis gives the root the same signature (identical re-evaluation, another process, a revert back to this version,
   the same code elsewhere) executes no body at all and returns the stored value.
@@ -54,6 +56,14 @@ theorem outside_cone_invisible {m : Nat} {W1 W2 : World} {cone : List String} (h
     (S : PStore) (rq : Request) (hrq : rq.fn ∈ cone) :
     evalStep m W1 S rq = evalStep m W2 S rq :=
   evalStep_congr hag hcl hfuel hx S rq hrq
+
+/-- the same when the second version has further (unrelated) definitions: adding definitions changes no outcome -/
+theorem outside_cone_invisible' {m : Nat} {W1 W2 : World} {cone : List String} (hag : AgreeOn W1 W2 cone)
+    (hcl : ConeClosed W1 cone) (hx : W1.extVersion = W2.extVersion) (hle : W1.funs.length ≤ W2.funs.length)
+    (S : PStore) (rq : Request) (hrq : rq.fn ∈ cone)
+    (hv : (evalStep m W1 S rq).value ≠ .error (.dds .outOfFuel)) :
+    evalStep m W1 S rq = evalStep m W2 S rq :=
+  evalStep_congr_le hag hcl hx hle S rq hrq hv
 
 /-- **re-evaluation executes nothing**: once a kept function has been evaluated, any evaluation (of any version, any
 request) whose root gets the same signature runs no body and returns the stored value -/
